@@ -5,11 +5,12 @@ V = os.path.dirname(os.path.dirname(os.path.abspath(__file__)))
 sys.path.insert(0, V); sys.path.insert(0, '/repo')
 props = [json.loads(l) for l in open(os.path.join(V, 'properties.jsonl'))]
 NA = json.load(open(os.path.join(V, 'tools', 'not_applicable.json')))
+READY = set(json.load(open(os.path.join(V, 'tools', 'ready.json'))))
 checks, na = [], []
 for p in props:
     pid = p['id']
     path = os.path.join(V, 'checks', pid.lower() + '.py')
-    if os.path.exists(path) and pid not in NA:
+    if os.path.exists(path) and pid not in NA and pid in READY:
         m = importlib.import_module('checks.' + pid.lower()).MANIFEST
         checks.append(dict(
             property_id=pid,
